@@ -76,7 +76,7 @@ def run_parallel(path_rows, name, nproc=4, extra=None):
     common.build_harness("release", BIN)
 
     def one(fp):
-        return common.vh(["run", "--in", fp] + (extra or []), binname=BIN, timeout=3000, env={"RAYON_NUM_THREADS": "3"})
+        return common.vh(["run", "--in", fp] + (extra or []), binname=BIN, timeout=7000, env={"RAYON_NUM_THREADS": "3"})
 
     with ThreadPoolExecutor(max_workers=nproc) as ex:
         outs = list(ex.map(one, files))
@@ -337,11 +337,17 @@ def run(chk, tier):
             cover.append({"id": "v-lookup_sweep%d-%s" % (k, w), "prog": {"nin": 3, "instrs": sweep}, "cfg": dict(stdc, width=w),
                           "inputs": ["rand", "rand", "rand"]})
     rows = make_scenarios(p1, cfgs, classes, rnd, "a") + cover
+    if thorough:
+        # budget: about 4 500 scenarios (40 - 60 min of build / prove / verify on six processes)
+        psim = psim[:900]
+        rnd.shuffle(p2)
+        p2 = sorted(p2[:900], key=lambda p: json.dumps(p["prog"], sort_keys=True))
     rows += make_scenarios(psim, cfgs, classes, rnd, "s")
     rows += make_scenarios(p2, cfgs, classes, rnd, "b")
     if thorough:
-        rows += make_scenarios(p1, cfgs, classes, rnd, "c", std_share=0.0)
-        rows += make_scenarios(p1, cfgs, classes, rnd, "d", std_share=0.0)
+        pc = list(p1)
+        rnd.shuffle(pc)
+        rows += make_scenarios(sorted(pc[:500], key=lambda p: json.dumps(p["prog"], sort_keys=True)), cfgs, classes, rnd, "c", std_share=0.0)
     res = run_parallel(rows, "c01_run", nproc=6)
     stats = {}
     judge(chk, rows, res, stats)
